@@ -650,6 +650,8 @@ pub fn gen(r: &mut Rng, thorough: bool) -> Vec<(String, String)> {
     // ---- third follow-up: lattice starts over height fields (centre of the moving box exactly on grid lines / grid points)
     let mut fam = std::collections::BTreeMap::new();
     for it in 0..(if thorough { 2400 } else { 240 }) { v.extend(gen_hf_lattice_case(r, it % 4 != 3, &mut fam)); }
+    // ---- the trace of the 3-D height-field cell walk (bit-exact model + exact covering oracle)
+    v.extend(gen_hfwalk(r, thorough));
     if std::env::var("C06_FAMILIES").is_ok() { for (k, n) in &fam { eprintln!("family {} {}", k, n); } }
     v
 }
